@@ -6,8 +6,6 @@ let rec int_of_pos (p : positive) : int =
   match p with XH -> 1 | XO q -> 2 * int_of_pos q | XI q -> 2 * int_of_pos q + 1
 let n_of_int (i : int) : n = if i = 0 then N0 else Npos (pos_of_int i)
 let int_of_n (x : n) : int = match x with N0 -> 0 | Npos p -> int_of_pos p
-let rec nat_of_int (i : int) : nat = if i <= 0 then O else S (nat_of_int (i - 1))
-let int_of_nat (x : nat) : int = let rec go acc = function O -> acc | S m -> go (acc + 1) m in go 0 x
 let hexval c = match c with
   | '0'..'9' -> Char.code c - 48 | 'a'..'f' -> Char.code c - 87 | 'A'..'F' -> Char.code c - 55
   | _ -> failwith "bad hex"
@@ -21,3 +19,13 @@ let hex_of_bytes (l : n list) : string =
 let split_on c s = if s = "" then [] else String.split_on_char c s
 let iter_lines (f : string -> unit) : unit =
   try while true do f (input_line stdin) done with End_of_file -> ()
+(* ---- Z / N from 64-bit machine values (no arithmetic on the Coq side needed) ---- *)
+let rec pos_of_int64 (i : int64) : positive =   (* i treated as unsigned, i <> 0 *)
+  if Int64.equal i 1L then XH
+  else let rest = Int64.shift_right_logical i 1 in
+       if Int64.equal (Int64.logand i 1L) 1L then XI (pos_of_int64 rest) else XO (pos_of_int64 rest)
+let n_of_uint64 (i : int64) : n = if Int64.equal i 0L then N0 else Npos (pos_of_int64 i)
+let rec uint64_of_pos (p : positive) : int64 =
+  match p with XH -> 1L | XO q -> Int64.shift_left (uint64_of_pos q) 1
+             | XI q -> Int64.logor (Int64.shift_left (uint64_of_pos q) 1) 1L
+let uint64_of_n (x : n) : int64 = match x with N0 -> 0L | Npos p -> uint64_of_pos p
